@@ -42,7 +42,7 @@ From V.gen Require Consts.
 From V.common Require Import Wire Varint Protobuf.
 From V.C18 Require Model.
 From V.C03 Require Model.
-From V.C19 Require Import Formats Model Net.
+From V.C19 Require Import Formats Model Net Consume.
 From V.C19 Require E02 E03 E04.
 Import ListNotations.
 Open Scope N_scope.
@@ -356,9 +356,11 @@ Definition opaque_bound (kind len : N) : N :=
 
 Definition run_kad (k : nat) (b : bytes) (o : oracle) : list N :=
   let raw := match dec_kmsg b with Some m => 1 :: dump_kmsg m | None => [0] end in
+  (* consumer stage (k >= 1): the real Kademlia loop receives the very bytes *)
+  let cons := if Nat.eqb k 0 then [] else kad_consume o (blen b) (kad_from_bytes k o b) in
   match kad_from_bytes k o b with
-  | Some m => hdrk k (blen b) (kad_cap m) (raw ++ 1 :: dump_kad m)
-  | None => hdrk k (blen b) 0 (raw ++ [0])
+  | Some m => hdrk k (blen b) (kad_cap m) (raw ++ 1 :: dump_kad m ++ cons)
+  | None => hdrk k (blen b) 0 (raw ++ [0] ++ cons)
   end.
 
 Definition RT_MDNS_BOUND : N := alloc_bound 4096 + 65536.
@@ -419,11 +421,11 @@ Definition run (c : case) : list N :=
   | CKey b o =>
       hdr (blen b) 0
         ((match dec_pubkey b with Some m => 1 :: dump_pubkey m | None => [0] end) ++
-         eO (remote_key o b))
+         eO (remote_key o b) ++ dump_key_peer (remote_key o b))
   | CNoise b o =>
       hdr (blen b) 0
         ((match dec_noise b with Some m => 1 :: dump_noise m | None => [0] end) ++
-         eO (noise_identity o b))
+         eO (noise_identity o b) ++ dump_key_peer (noise_identity o b))
   | CIdent p l b o =>
       hdr (blen b) 0
         ((match dec_identify b with Some m => 1 :: dump_identify m | None => [0] end) ++
@@ -442,11 +444,18 @@ Definition run (c : case) : list N :=
          | None => [0]
          end)
   | CPeerId b =>
-      hdr (blen b) 0 (match V.C18.Model.of_bytes b with Some p => 1 :: eL (V.C18.Model.to_bytes p) | None => [0] end)
+      (* consumer stage: the bytes of multiaddr::PeerId::from(peer) ([255] = the model's own decoder
+         let through an id the conversion panics on: never, C19_peer_id_convertible) *)
+      hdr (blen b) 0 (match V.C18.Model.of_bytes b with
+                      | Some p => 1 :: eL (V.C18.Model.to_bytes p) ++
+                                  match convert_peer_id p with Some c => eL c | None => [255] end
+                      | None => [0]
+                      end)
   | CMaddr b o =>
       hdr (blen b) 0
         (if maddr_valid_m b
-         then [1; b2n (is_nil b)] ++ match maddr_last_p2p b with Some id => 1 :: id | None => [0] end
+         then [1; b2n (is_nil b)] ++ match maddr_last_p2p b with Some id => 1 :: id | None => [0] end ++
+              maddr_consume b
          else [0])
   | CCid b => hdr (blen b) 0 (match cid_read b with Some c => 1 :: eL c | None => [0] end)
   | COpaque k b =>
